@@ -3180,6 +3180,12 @@ def wrapper_template(fns, fname, branch_fn, cfgbits):
             raise Untranslatable(f"{fname}: `{branch_fn}`: the template uses `__cache` before the key is computed")
     env = {"key_expr": ident("key__"), "block": [("p", "{", 0)] + ident("body__") + [("p", "}", 0)],
            "invalidation_check": inv_check, "cache_condition": cache_cond}
+    # the user's body must run INSIDE a closure `(|| #block)()`: an early `return` or a `?` in it then yields the closure's value,
+    # which the wrapper still hands to cache_if and to the store (the translation treats the body as a value; spliced inline, a
+    # `return` in the body would leave the generated function before the predicate and the store)
+    ttxt = " ".join(t[1] for t in toks[start:])
+    if ttxt.count("# block") != 1 or "( | | # block ) ( )" not in ttxt.replace("||", "| |"):
+        raise Untranslatable(f"{fname}: `{branch_fn}`: the body is no longer invoked as a closure `(|| #block)()` exactly once")
     core = gi.quote(toks[start:], env)
     return [("p", "{", 0)] + core + [("p", "}", 0), ("eof", "", 0)]
 
